@@ -2,9 +2,16 @@ package expr
 
 import (
 	"fmt"
+	"math"
 
+	"github.com/shopspring/decimal"
 	"github.com/verily-src/fhirpath-go/fhirpath/system"
 )
+
+// isZeroDecimal reports whether the decimal value is zero.
+func isZeroDecimal(d system.Decimal) bool {
+	return decimal.Decimal(d).IsZero()
+}
 
 // EvaluateAdd takes in two system types, and calls the appropriate Add method.
 func EvaluateAdd(lhs, rhs system.Any) (system.Any, error) {
@@ -118,6 +125,9 @@ func EvaluateDiv(lhs, rhs system.Any) (system.Any, error) {
 	switch left := lhs.(type) {
 	case system.Integer:
 		if right, ok := rhs.(system.Integer); ok {
+			if right == 0 {
+				return nil, system.ErrDivideByZero
+			}
 			return left.Div(right), nil
 		}
 		if _, ok := rhs.(system.Quantity); ok {
@@ -126,6 +136,9 @@ func EvaluateDiv(lhs, rhs system.Any) (system.Any, error) {
 		return nil, typeMismatch(Div, lhs, rhs)
 	case system.Decimal:
 		if right, ok := rhs.(system.Decimal); ok {
+			if isZeroDecimal(right) {
+				return nil, system.ErrDivideByZero
+			}
 			return left.Div(right), nil
 		}
 		if _, ok := rhs.(system.Quantity); ok {
@@ -144,6 +157,12 @@ func EvaluateFloorDiv(lhs, rhs system.Any) (system.Any, error) {
 	switch left := lhs.(type) {
 	case system.Integer:
 		if right, ok := rhs.(system.Integer); ok {
+			if right == 0 {
+				return nil, system.ErrDivideByZero
+			}
+			if left == math.MinInt32 && right == -1 {
+				return nil, system.ErrIntOverflow
+			}
 			return left.FloorDiv(right), nil
 		}
 		if _, ok := rhs.(system.Quantity); ok {
@@ -152,6 +171,9 @@ func EvaluateFloorDiv(lhs, rhs system.Any) (system.Any, error) {
 		return nil, typeMismatch(FloorDiv, lhs, rhs)
 	case system.Decimal:
 		if right, ok := rhs.(system.Decimal); ok {
+			if isZeroDecimal(right) {
+				return nil, system.ErrDivideByZero
+			}
 			return left.FloorDiv(right)
 		}
 		if _, ok := rhs.(system.Quantity); ok {
@@ -170,6 +192,9 @@ func EvaluateMod(lhs, rhs system.Any) (system.Any, error) {
 	switch left := lhs.(type) {
 	case system.Integer:
 		if right, ok := rhs.(system.Integer); ok {
+			if right == 0 {
+				return nil, system.ErrDivideByZero
+			}
 			return left.Mod(right), nil
 		}
 		if _, ok := rhs.(system.Quantity); ok {
@@ -178,6 +203,9 @@ func EvaluateMod(lhs, rhs system.Any) (system.Any, error) {
 		return nil, typeMismatch(Mod, lhs, rhs)
 	case system.Decimal:
 		if right, ok := rhs.(system.Decimal); ok {
+			if isZeroDecimal(right) {
+				return nil, system.ErrDivideByZero
+			}
 			return left.Mod(right), nil
 		}
 		if _, ok := rhs.(system.Quantity); ok {
